@@ -68,7 +68,7 @@ def plan(tier, seed):
             dict(kind='autoref', nmax=4, init_vars=3)]
     for s in range(12 if tier == 'thorough' else 6):
         specs.append(dict(kind='random', seed=seed * 1000 + s, cfgs=cfgs,
-                          examples=1500 if tier == 'thorough' else 200,
+                          examples=1500 if tier == 'thorough' else 350,
                           min_len=8, max_len=40))
     return specs
 
